@@ -89,6 +89,32 @@ fn all_flat(k: usize) -> Vec<Case> {
     out
 }
 
+/// Every sequence of 2..=k operands joined by the operators that have a symbolic spelling, written
+/// without a single blank (`a->b`, `a&&-b`, `a<->!b||c`): the symbols need no separator.
+fn all_tight(k: usize) -> Vec<Case> {
+    const SYM: [&str; 8] = ["+", "-", "*", "/", "&&", "||", "->", "<->"];
+    const PRE: [&str; 3] = ["", "-", "!"];
+    const OPERANDS: [&str; 4] = ["a", "b", "c", "d"];
+    let mut out = vec![];
+    for o in 0..8usize.pow((k - 1) as u32) {
+        for p in 0..3usize.pow(k as u32) {
+            let (mut to, mut tp) = (o, p);
+            let mut s = String::new();
+            for i in 0..k {
+                if i > 0 {
+                    s.push_str(SYM[to % 8]);
+                    to /= 8;
+                }
+                s.push_str(PRE[tp % 3]);
+                tp /= 3;
+                s.push_str(OPERANDS[i % 4]);
+            }
+            out.push(Case::Text(s));
+        }
+    }
+    out
+}
+
 fn directed() -> Vec<Case> {
     [
         "a -> b <-> c", "a <-> b -> c", "a -> b -> c", "a <-> b <-> c", "a implies b iff c",
@@ -100,6 +126,8 @@ fn directed() -> Vec<Case> {
         "a and b + c", "a + b and c", "not a + b", "- a and b",
         "abs { a - b } * 2", "min { a, b + c } - max { 2a, 3 }", "all { a, b or c } -> any { a, b }",
         "2.5x", "0.5(a + b)", "a -> b || c", "a <-> b && c",
+        "a->b", "a ->b", "a-> b", "a->b->c", "a and b->c or d", "a->2b", "a->b_1", "a<->b", "a&&b||c", "a-b", "a->(b)", "a->!b",
+        "a||b_1&&c", "a<->b_1->c", "2a->3b", "a->notx", "a&&not1", "a||or_1",
     ]
     .iter()
     .map(|s| Case::Text(s.to_string()))
@@ -213,11 +241,14 @@ impl Prop for C09 {
         for k in 2..=kmax {
             v.extend(all_flat(k));
         }
+        for k in 2..=kmax - 1 {
+            v.extend(all_tight(k));
+        }
         v
     }
     fn exhaustive_stratum(&self, tier: Tier) -> Option<String> {
         Some(format!(
-            "all parenthesis-free operator sequences over the 9 binary operators with an optional prefix operator (none, -, not) on every operand, 2..={} operands",
+            "all parenthesis-free operator sequences over the 9 binary operators with an optional prefix operator (none, -, not) on every operand, 2..={} operands; the same with symbolic operators and no blanks up to one operand fewer",
             if tier == Tier::Quick { 4 } else { 5 }
         ))
     }
@@ -225,7 +256,7 @@ impl Prop for C09 {
         serde_json::to_string(&c.text()).unwrap()
     }
     fn rule(&self) -> String {
-        "expression texts: (1) exhaustively every parenthesis-free sequence of 2-4 (thorough: 2-5) operands joined by any of the 9 binary operators, each operand with no prefix, '-' or 'not', operators spelled as keywords or symbols; (2) random trees (arithmetic, logic and mixed, depth <= 5, abs/min/max/all/any blocks) printed with required or redundant parentheses, keyword or symbolic operators, implicit multiplication, over identifiers that include keyword-prefixed ones (notx, andy, orb, minx, inx, xorq, iffy, impliesz, asx); (3) random flat sequences of 6-12 operands; (4) a directed list. rooc's parse (lhs of a constraint after parse_and_transform) is compared with an independent precedence-climbing parser: by value at all assignments over {0,1,-1,2}^k (deciding) and structurally (reported as a label). Every text the reference accepts must be accepted. Non-trivial = >=2 binary operators of different level or of the shared implies/iff level, a non-associative operator repeated, or a prefix operator next to a binary one. Distinct = distinct text.".into()
+        "expression texts: (1) exhaustively every parenthesis-free sequence of 2-4 (thorough: 2-5) operands joined by any of the 9 binary operators, each operand with no prefix, '-' or 'not', operators spelled as keywords or symbols, and every sequence of 2-3 (thorough: 2-4) operands joined by the 8 symbolic operators with prefixes none, '-', '!' written without any blank; (2) random trees (arithmetic, logic and mixed, depth <= 5, abs/min/max/all/any blocks) printed with required or redundant parentheses, keyword or symbolic operators, implicit multiplication, over identifiers that include keyword-prefixed ones (notx, andy, orb, minx, inx, xorq, iffy, impliesz, asx); (3) random flat sequences of 6-12 operands; (4) a directed list. rooc's parse (lhs of a constraint after parse_and_transform) is compared with an independent precedence-climbing parser: by value at all assignments over {0,1,-1,2}^k (deciding) and structurally (reported as a label). Every text the reference accepts must be accepted. Non-trivial = >=2 binary operators of different level or of the shared implies/iff level, a non-associative operator repeated, or a prefix operator next to a binary one. Distinct = distinct text.".into()
     }
     fn check(&self, case: &Case) -> Outcome {
         let text = case.text();
